@@ -36,7 +36,7 @@ theorem C12_tree (cx : Ctx) (n i : Nat) (a : AMode) (m : RMode) (r : Ret) (cls :
 
 mutual
 theorem noLeafT (cls : Nat → Cls) (hb : ∀ i, cls i ≠ .leaf) : ∀ t : Invoc, leafOKT cls t = true
-  | .mk i a m res b e kids => by
+  | .mk i a m kc res b e kids => by
     simp only [leafOKT, Bool.and_eq_true]
     refine ⟨?_, noLeafL cls hb kids⟩
     cases hc : cls i with
@@ -115,7 +115,7 @@ theorem C12_failed_contributes_nothing (cls : Nat → Cls) (t : Invoc) (h : t.re
 
 /-- A successful invocation of a rule that is not selected is invisible: its children take its place. -/
 theorem C12_unselected_contracted (cls : Nat → Cls) (i : Nat) (a : AMode) (m : RMode) (b e : Cursor) (kids : List Invoc)
-    (h : ∀ s, cls i ≠ .sel s) : specT cls (.mk i a m 1 b e kids) = specL cls kids := by
+    (h : ∀ s, cls i ≠ .sel s) : specT cls (.mk i a m kc 1 b e kids) = specL cls kids := by
   simp only [specT]
   cases hc : cls i with
   | sel s => exact absurd hc (h s)
@@ -126,7 +126,7 @@ theorem C12_unselected_contracted (cls : Nat → Cls) (i : Nat) (a : AMode) (m :
     rule matched, with the surviving sub-derivation as its children. -/
 theorem C12_selected_node (cls : Nat → Cls) (i : Nat) (a : AMode) (m : RMode) (b e : Cursor) (kids : List Invoc)
     (h : cls i = .sel .store) :
-    specT cls (.mk i a m 1 b e kids) = (0, ⟨i, b, e, true⟩) :: (specL cls kids).lift := by
+    specT cls (.mk i a m kc 1 b e kids) = (0, ⟨i, b, e, true⟩) :: (specL cls kids).lift := by
   simp [specT, h, transformNode, mkNode]
 
 /-! ### the built-in transformers change the tree only as documented -/
